@@ -65,7 +65,9 @@ package kvql
 //@   ensures (err != nil ==> failed && lastErr == err) && (err == nil ==> !failed)
 //
 //@ iface (e Expression) Execute(kv KVPair, ctx *ExecuteCtx) (result any, err error)
+//@   requires[C05] coherent: coherent(ctx, val(kv.Key), val(kv.Value)) && wfCtx(ctx) && wfRefs()
 //@   assigns ctx.Hit, mapof(ctx.FieldCaches)
+//@   ensures[C05] coherent: coherent(ctx, val(kv.Key), val(kv.Value))
 //@   ensures (err == nil) == evalok(e, val(kv.Key), val(kv.Value))
 //@   ensures err == nil ==> result == evalv(e, val(kv.Key), val(kv.Value))
 //
